@@ -143,7 +143,15 @@ class Net:
                 ops += [t[tuple(sl)], idx]
         if not ops:
             return None
-        return float(np.einsum(*ops, [], optimize='greedy' if len(ops) > 4 else False))
+        n = len(ops) // 2
+        if n <= 2:
+            return float(np.einsum(*ops, [], optimize=False))
+        # explicit pairwise path: fold the sites in row-major order into one running tensor whose open legs are the
+        # cut through the grid (at most one row of vertical bonds plus one horizontal bond), so the cost is bounded;
+        # numpy's 'greedy' path search occasionally picks intermediates that take tens of seconds on 5x5 networks.
+        # Inside the exactness regime every contraction order gives the same float, so the order is immaterial.
+        path = ['einsum_path', (0, 1)] + [(0, n - 1 - i) for i in range(1, n - 1)]
+        return float(np.einsum(*ops, [], optimize=path))
 
     def brute_value(self, limit=30000):
         """sum over all internal bond assignments of the product of mantissas, in Python ints (or None if too big)"""
@@ -395,7 +403,10 @@ def run(ctx):
                 'positive real entries to 1e-9. nontrivial = distinct network with >= 2 columns, some bond > 1 and '
                 'some zero entry' % ('1x1..5x6',))
     ctx.props_obligations()
-    ctx.trusted.append('multilinear rescaling by 2^k per tensor is done by the harness (the model runs on integer mantissas)')
+    ctx.trusted.append('multilinear rescaling by 2^k per tensor is done by the harness (the model runs on integer mantissas); '
+                       'that the value, the sweeps and the splits scale by the product of the factors is c11_value_scale / '
+                       'c11_sweep_exact_scaled / c11_split_scaled; trusted is only that binary64 multiplication by 2^k is '
+                       'exact inside the exponent window the generator checks')
     ctx.trusted.append('real truncation (QR/SVD) is outside the C11 model; it is covered numerically here (1e-9) and by C12')
 
     # ---- recording proxy on mps.truncate ------------------------------------------------------
@@ -868,11 +879,15 @@ def run(ctx):   # noqa: F811
     _run_main(ctx)
     from harness import c11_extra
     c11_extra.run(ctx)
+    c11_extra.run_round3(ctx)
 
 def replay(path):
     d = json.load(open(path))
     print(json.dumps({k: v for k, v in d.items() if k != 'replay'}, indent=1))
     rep = d.get('replay', {})
+    if 'net' in rep and 'history' in rep:
+        from harness import c11_extra
+        return c11_extra.replay_history(rep)
     if 'net' not in rep:
         print(json.dumps(rep, indent=1)[:4000])
         return 0
